@@ -5,6 +5,7 @@ import (
 	"os"
 	"sort"
 	"strings"
+	"time"
 
 	"perkeep.org/pkg/index"
 
@@ -40,6 +41,25 @@ func genC05(tier string, run int, r *simcore.Rand) *harness.Plan {
 		cfg.Corpus = "start"
 	}
 	ops := genArrivals(r, spec, perm, true)
+	// A slow blob source (own choice stream: the other draws are as before).
+	r2 := simcore.NewRand(simcore.Mix(r.Uint64(), "slow-source"))
+	if !perm && r2.Bool(0.12) {
+		cfg.StallMissMs = 1000 * r2.Range(1, 60)
+	}
+	// A big indexing batch while receives are in flight: one run in 250.
+	// The index applies backpressure once several thousand blobs were
+	// indexed while some receive is still pending; the batch is larger
+	// than that.
+	if !perm && r2.Intn(250) == 0 {
+		cfg.StallMissMs = 1000 * r2.Range(5, 60)
+		end := 0
+		for end < len(ops) && !ops[end].barrier() {
+			end++
+		}
+		at := r2.Intn(end + 1)
+		bulk := Op{K: "bulk", C: r2.Range(1, 4), N: r2.Range(5050, 5600), Seed: r2.Uint64()}
+		ops = append(ops[:at], append([]Op{bulk}, ops[at:]...)...)
+	}
 	p := &harness.Plan{Mode: "seeded", Config: harness.MustJSON(cfg), Bubble: true, Ops: opsJSON(ops)}
 	if perm {
 		p.Mode = "perm"
@@ -178,6 +198,9 @@ type oracle struct {
 	rerr  map[string]string
 	// subRuns counts oracle executions
 	n int
+	// rows of a lone filler blob (fillerRows)
+	fillRef string
+	fill    map[string]string
 }
 
 func newOracle(rc *harness.RunCtx, w *world, cfg *Config, seed uint64) *oracle {
@@ -224,6 +247,48 @@ func (o *oracle) canonical(refs map[string]bool) (map[string]string, error) {
 	m := s.rows()
 	o.canon[key] = m
 	return m, nil
+}
+
+// fillerRows: the rows of one filler blob delivered to a fresh index on its
+// own (keys carry its ref, returned for substitution), without the rows an
+// empty index has.
+func (o *oracle) fillerRows() (string, map[string]string, error) {
+	if o.fillRef != "" {
+		return o.fillRef, o.fill, nil
+	}
+	o.n++
+	s := newSession(o.rc, o.w, "filler")
+	s.reseed(simcore.Mix(o.seed, "filler"))
+	if err := s.open(); err != nil {
+		return "", nil, err
+	}
+	if err := s.await(); err != nil {
+		return "", nil, err
+	}
+	empty := s.rows()
+	// same length as the fillers of fillerBlob: the size is part of the rows
+	if err := s.segment([]Op{{K: "bulk", C: 1, N: 1, Seed: 0xf111e5}}, 0); err != nil {
+		return "", nil, err
+	}
+	if len(s.recvErrs) > 0 {
+		return "", nil, fmt.Errorf("%s", clip(s.recvErrs, 3))
+	}
+	br, _ := fillerBlob(0xf111e5, 0)
+	m := map[string]string{}
+	for k, v := range s.rows() {
+		if ev, ok := empty[k]; ok && ev == v {
+			continue
+		}
+		if !strings.Contains(k, br.String()) || strings.Contains(v, br.String()) {
+			return "", nil, fmt.Errorf("unexpected row %q=%q for a lone opaque blob", k, v)
+		}
+		m[k] = v
+	}
+	if len(m) == 0 {
+		return "", nil, fmt.Errorf("a lone opaque blob left no rows")
+	}
+	o.fillRef, o.fill = br.String(), m
+	return o.fillRef, o.fill, nil
 }
 
 // reindex: a full Reindex() from a blob source holding exactly refs into
@@ -464,11 +529,17 @@ func runHistoryC05(rc *harness.RunCtx, p *harness.Plan, cfg *Config, w *world, o
 	var res histResult
 	s := newSession(rc, w, "main")
 	s.corpusOn = cfg.Corpus == "start"
+	s.stallMiss = time.Duration(cfg.StallMissMs) * time.Millisecond
 	s.reseed(simcore.Mix(seed, "seg", "open"))
 	if err := s.open(); err != nil {
 		res.incon = "open: " + err.Error()
 		return res
 	}
+	defer func() {
+		for k, v := range s.reach {
+			out.Reached[k] += v
+		}
+	}()
 	var fl histFlags
 	fl.corpus = s.corpusOn
 	clients := map[int]bool{}
@@ -530,6 +601,35 @@ func runHistoryC05(rc *harness.RunCtx, p *harness.Plan, cfg *Config, w *world, o
 			refs[k] = true
 		}
 		rows := s.rows()
+		if len(s.fillers) > 0 {
+			// The fillers of a bulk delivery depend on nothing and nothing
+			// depends on them: each must have exactly the rows it gets
+			// when it is the only blob of an index. They are then left out
+			// of the comparison with the oracle histories.
+			tmplRef, tmpl, err := orc.fillerRows()
+			if err != nil {
+				res.incon = "filler oracle: " + err.Error()
+				return true
+			}
+			var bad []string
+			for _, ref := range sortedKeys(s.fillers) {
+				for tk, tv := range tmpl {
+					k := strings.ReplaceAll(tk, tmplRef, ref)
+					if got, ok := rows[k]; !ok || got != tv {
+						if len(bad) < 6 {
+							bad = append(bad, fmt.Sprintf("row %q: got %q (present=%v) want %q", k, got, ok, tv))
+						}
+					}
+					delete(rows, k)
+				}
+			}
+			if len(bad) > 0 {
+				if report("filler-rows", "", "", fmt.Sprintf("opaque blobs of a bulk delivery of %d do not have the rows an opaque blob gets on its own: %s", len(s.fillers), clip(bad, 6)), opIdx) {
+					return true
+				}
+			}
+			out.Reached["bulk-delivery-checked"]++
+		}
 		probeRows(s, out, rows)
 		ds := newDepState(w, refs)
 		// blobs the model says are complete but the index has not finished
